@@ -503,8 +503,8 @@ Definition validate_ent (isSIUnit isCompoundSIUnit : string -> bool) (isScalable
 (** * The model of the *current* working tree.
     These two lines are the only ones to change when the corresponding fix: commit lands
     (notes/proposed-fixes/C19-tag-units.patch, C19-property-unit.patch). *)
-Definition tagUnits_variant : variant := AsPinned.
-Definition propUnit_variant : variant := AsPinned.
+Definition tagUnits_variant : variant := Repaired.
+Definition propUnit_variant : variant := Repaired.
 
 Definition validate_current (isSIUnit isCompoundSIUnit : string -> bool) (isScalable : string -> string -> bool)
   : vfile -> result :=
